@@ -168,11 +168,11 @@ def _integrate_params(order, n):
 # Instance set by tier: the invariant below is generic in (order, n); every one of the 36 pairs with 1 <= n <= order <= 8 verifies
 # (8270 obligations, about 4 min on a quiet 16-core machine), which is too slow for the quick tier.  The quick tier takes the
 # default (4,1), the lowest order (1,1: the primary stencil is the implicit rectangle rule and is reached after ONE regular step),
-# fully implicit layouts n = order (no past sample: (2,2), (3,3), (4,4), (8,8)), one implicit point n = 1 up to the highest order
-# (2,1), (3,1), (8,1), further fully implicit / mixed layouts (5,5), (4,2), (4,3), (6,3), (7,4); the thorough tier takes all 36.
+# fully implicit layouts n = order (no past sample: (2,2), (3,3), (4,4), (8,8)), one implicit point (2,1), (3,1)
+# and mixed layouts (4,2), (6,3); the thorough tier takes all 36.
 TIERED = True
 _TIER = os.environ.get("VERIF_TIER", "quick")
-QUICK_INST = [(4, 1), (2, 1), (3, 1), (4, 2), (1, 1), (2, 2), (3, 3), (4, 3), (4, 4), (5, 5), (6, 3), (7, 4), (8, 1), (8, 8)]
+QUICK_INST = [(4, 1), (2, 1), (3, 1), (4, 2), (1, 1), (2, 2), (3, 3), (4, 4), (6, 3), (8, 8)]
 INTEGRATE_INST = QUICK_INST + [p for p in PAIRS if p not in QUICK_INST] if _TIER == "thorough" else list(QUICK_INST)
 if os.environ.get("C20_ONLY"):      # debugging: C20_ONLY="8,8 4,1"
     INTEGRATE_INST = [p for p in PAIRS if f"{p[0]},{p[1]}" in os.environ["C20_ONLY"].split()]
@@ -265,7 +265,7 @@ TRUSTED = ["numba compiles the source faithfully (the witnesses call the compile
 EXPLANATION = ("stencil table: all 36 (order,n) pairs executed on the real source in exact rational arithmetic (finite table, exhaustive); "
                "integrate: inductive invariant (start value, closed form per step, trapezoid on jitter / on the last n-1 steps / on the first `order` steps, "
                "jitter-free window of `order` steps behind every higher-order step, index safety at both ends, restart after a jitter) over all lengths, "
-               "time grids and signals; quick tier: 14 (order,n) pairs incl. order 1, the fully implicit layouts n = order in {1,2,3,4,5,8}, n = 1 for "
-               "orders 1-4 and 8, mixed (4,2),(4,3),(6,3),(7,4); thorough tier: all 36 pairs with 1 <= n <= order <= 8 (8270 obligations). "
+               "time grids and signals; quick tier: 10 (order,n) pairs incl. order 1, the fully implicit layouts n = order in {1,2,3,4,8}, n = 1 for "
+               "orders 1-4, mixed (4,2),(6,3); thorough tier: all 36 pairs with 1 <= n <= order <= 8 (8270 obligations). "
                "`integrate` has no other caller in the repository (complex_response / integrated_response_factor_spectral_tail only use the stencil table; "
                "cumulative_distance is a different recurrence outside the statement)")
